@@ -18,7 +18,13 @@ import (
 	"time"
 )
 
-const Root = "/verif"
+// Root is the verification tree the running check belongs to (/verif, or a snapshot of it).
+var Root = func() string {
+	if r := os.Getenv("VERIF_ROOT"); r != "" {
+		return r
+	}
+	return "/verif"
+}()
 
 type Finding struct {
 	Property  string `json:"property"`
